@@ -73,7 +73,11 @@ func acceptElement(t *verifsim.Tape) string {
 	case 5:
 		mt = "application/vnd.api+" + []string{"json", "xml", "gob"}[t.Draw("suffix", 3)]
 	case 6:
-		mt = []string{"image/png", "application/pdf", "application/xhtml+xml"}[t.Draw("unsup", 3)]
+		if t.Draw("unsup-lookalike", 2) == 0 {
+			mt = lookalikeMT(t)
+		} else {
+			mt = []string{"image/png", "application/pdf", "application/xhtml+xml"}[t.Draw("unsup", 3)]
+		}
 	default:
 		m := supportedMT[t.Draw("sup", len(supportedMT))]
 		mt = strings.ToUpper(m[:1]) + m[1:5] + strings.ToUpper(m[5:])
@@ -114,6 +118,9 @@ func genAccept(t *verifsim.Tape) (val string, present bool, class string) {
 		m := sup()
 		return strings.ToUpper(m[:1]) + m[1:5] + strings.ToUpper(m[5:]), true, "mixedcase"
 	case 8:
+		if t.Draw("unsup-lookalike", 2) == 0 {
+			return lookalikeMT(t), true, "unsupported"
+		}
 		return []string{"image/png", "application/pdf", "application/x-www-form-urlencoded"}[t.Draw("unsup", 3)], true, "unsupported"
 	case 9:
 		return []string{";;;", "a/b/c", "json", "application/", "/", "application/json;", ",", "q=1"}[t.Draw("garbage", 8)], true, "garbage"
@@ -130,8 +137,29 @@ func genAccept(t *verifsim.Tape) (val string, present bool, class string) {
 	}
 }
 
+// lookalikeMT: media types that are NOT one of the supported ones but share a prefix, a
+// suffix or a family with them. Whatever the library decides to do with one of these, both
+// ends have to decide the same.
+var lookalikes = []string{"text/csv", "text/xml", "text/tab-separated-values", "text/markdown", "text/plainx", "text/htmlx", "text/json",
+	"application/jsonx", "application/json-seq", "application/json-patch", "application/xml-dtd", "application/x-gob", "application/gobx",
+	"application/vnd.goa.thing+yaml", "application/vnd.goa.thing+jsonx", "application/vnd.goa.thing+txt", "application/vnd.goa.thing+html",
+	"application/xhtml+xml", "application/problem+json", "image/svg+xml", "multipart/form-data", "application/x-www-form-urlencoded", "text/x.vnd+gob"}
+
+func lookalikeMT(t *verifsim.Tape) string {
+	mt := lookalikes[t.Draw("lookalike", len(lookalikes))]
+	switch t.Draw("lookalike-par", 6) {
+	case 0:
+		mt += "; charset=utf-8"
+	case 1:
+		mt = strings.ToUpper(mt[:1]) + mt[1:]
+	}
+	return mt
+}
+
 func genDesignedCT(t *verifsim.Tape) (string, string) {
-	switch t.Draw("ct", 9) {
+	switch t.Draw("ct", 11) {
+	case 9, 10:
+		return lookalikeMT(t), "lookalike"
 	case 0, 1, 2:
 		return "", "absent"
 	case 3:
@@ -400,6 +428,9 @@ func runC15(t *verifsim.Tape, cfg engine.Config) *engine.Outcome {
 				}
 			case rc < 10:
 				c.ReqCT, c.ReqClass = []string{"image/png", "application/x-www-form-urlencoded", "application/octet-stream", "application/vnd.api+json"}[t.Draw("unsup", 4)], "unsupported"
+				if t.Draw("unsup-lookalike", 2) == 0 {
+					c.ReqCT = lookalikeMT(t)
+				}
 			default:
 				c.ReqCT, c.ReqClass = []string{"application/json; charset", ";", "json"}[t.Draw("bad", 3)], "garbage"
 			}
